@@ -273,13 +273,19 @@ func buildUniverse() (*universe, error) {
 	u.addShare("sh-expired-epoch-half", "f", true, 19, time.Unix(0, 500000000).UTC())
 	u.addShare("sh-deleted", "f", true, 16, time.Time{})
 	u.addShare("sh-undeleted", "f", true, 17, time.Time{})
+	u.addShare("sh-deleted-twice", "f", true, 9, time.Time{})
 	u.N[u.id("sh-deleted")].Deleted = true
+	u.N[u.id("sh-deleted-twice")].Deleted = true
 	del := func(name, target string, date int) {
 		u.add(&node{Name: name, B: a.Delete(name, u.ref(target), world.T(date)), Present: true, Kind: "delete"})
 	}
 	del("del-1", "sh-deleted", 20)
 	del("del-2", "sh-undeleted", 21)
 	del("del-3", "del-2", 22) // deletes the delete: sh-undeleted is live again
+	// deleted by two delete claims of which only the newer one is undone: still deleted
+	del("del-4", "sh-deleted-twice", 23)
+	del("del-5", "sh-deleted-twice", 24)
+	del("del-6", "del-5", 25)
 
 	// storage + index + handler
 	u.Src = hs.NewMem("bs")
